@@ -8,6 +8,8 @@ package main
 //                   calls and the argument expression (p[:n]), plus the EOF separator
 //   gen_separators  the literal every DumpDefault call in transfer.go / http2 / http3 passes
 //   gen_dumpto      the conditions of the if statements of Dumper.DumpTo, in order
+//   gen_shared_state   Dumper.Clone gives the clone a fresh channel; Request.SetDumpOptions copies INTO the
+//                   struct the Dumper was built around
 //   gen_bufio_asserts  the expression every `.(*bufio.Writer)` assertion of writeRequest / writeBody
 //                   is made on (the raw writer rw, never the dump-wrapped w)
 // Proofs/DumpSyncProofs.v proves that the model's resolve / enabled / hook constants are what
@@ -227,6 +229,45 @@ func syncDumpTables(repo string) (string, string, error) {
 		}
 	}
 
+	// ---- state shared between dumpers / between setter calls ----
+	var shared []string
+	f, err = parse("internal/dump/dump.go")
+	if err != nil {
+		return "", "", err
+	}
+	for _, d := range f.Decls {
+		fd, ok := d.(*ast.FuncDecl)
+		if !ok || fd.Name.Name != "Clone" || recvType(fd) != "Dumper" {
+			continue
+		}
+		ast.Inspect(fd.Body, func(n ast.Node) bool {
+			kv, ok := n.(*ast.KeyValueExpr)
+			if ok {
+				if id, ok := kv.Key.(*ast.Ident); ok && id.Name == "ch" {
+					shared = append(shared, fmt.Sprintf("  (%s, %s)", coqStr("Dumper.Clone ch"), coqStr(exprString(fset, kv.Value))))
+				}
+			}
+			return true
+		})
+	}
+	f, err = parse("request.go")
+	if err != nil {
+		return "", "", err
+	}
+	for _, d := range f.Decls {
+		fd, ok := d.(*ast.FuncDecl)
+		if !ok || fd.Name.Name != "SetDumpOptions" || recvType(fd) != "Request" {
+			continue
+		}
+		ast.Inspect(fd.Body, func(n ast.Node) bool {
+			as, ok := n.(*ast.AssignStmt)
+			if ok && len(as.Lhs) == 1 && strings.Contains(exprString(fset, as.Lhs[0]), "dumpOptions") {
+				shared = append(shared, fmt.Sprintf("  (%s, %s)", coqStr("Request.SetDumpOptions"), coqStr(exprString(fset, as.Lhs[0])+" = "+exprString(fset, as.Rhs[0]))))
+			}
+			return true
+		})
+	}
+
 	var sb strings.Builder
 	sb.WriteString("(* GENERATED by harness/c13 gosync from /repo/dump.go, internal/dump/dump.go, transfer.go,\n   internal/http2/transport.go, internal/http3/client.go - do not edit *)\n")
 	sb.WriteString("From ReqV Require Import Lib.Bytes.\n")
@@ -239,5 +280,6 @@ func syncDumpTables(repo string) (string, string, error) {
 	list("gen_separators", "(bytes * bytes)", seps)
 	list("gen_dumpto", "bytes", conds)
 	list("gen_bufio_asserts", "(bytes * bytes)", asserts)
+	list("gen_shared_state", "(bytes * bytes)", shared)
 	return "DumpTables.v", sb.String(), nil
 }
